@@ -44,7 +44,7 @@ def cases(tier, seed):
         for n_, (p, sname) in enumerate(pairs):
             if tier == 'quick' and (j + n_) % 2:
                 continue
-            cs.append({'t': 'foreignenc', 'style': style, 'primary': p, 'sub': sname, 'protect': (j + n_) % 3 == 0})
+            cs.append({'t': 'foreignenc', 'style': style, 'primary': p, 'sub': sname, 'protect': (j + n_) % 3 == 0, 'uid': ['utf8', 'latin1', 'notext'][(j + n_) % 3]})
     if gpgx.available():
         cs.append({'t': 'gpg', 'seed': seed, 'n': 4 if tier == 'quick' else 20})
     return cs
@@ -271,7 +271,9 @@ def _generated(ctx, d, pgpy):
 
 def _foreignenc(ctx, d, pgpy):
     prot = {'usage': 254, 'cipher': 9, 's2k': (3, 8, b'saltsalt', 0x60), 'iv': bytes(range(16)), 'passphrase': b'foreign pw'} if d['protect'] else None
-    blob, info = foreignkey.build(d['primary'], d['sub'], d['style'], extra_uid=b'Second Identity <second@example.org>', protect=prot)
+    # the first identity as other implementations write it: UTF-8, legacy Latin-1 octets, or octets that are no text at all
+    uid = {'utf8': 'Zo\u00eb \u65e5\u672c <zoe@example.org>'.encode('utf-8'), 'latin1': b'Jos\xe9 Mu\xf1oz <jose@example.org>', 'notext': b'\xff\xfe\x00 raw <r@example.org>'}[d.get('uid', 'utf8')]
+    blob, info = foreignkey.build(d['primary'], d['sub'], d['style'], uid=uid, extra_uid=b'Second Identity <second@example.org>', protect=prot)
     want = keyshape.blob_tree(blob)[0]
     nsig = len(info['sig_bodies']) + (1 if d['sub'] and pool.mat(d['sub'])['alg'] != 18 else 0)
     ctx.count('foreign_encoded_keys')
